@@ -332,7 +332,8 @@ func (e *Eval) evalLoop(fr *frame, h *ssa.BasicBlock, body map[*ssa.BasicBlock]b
 					off = l[0].W.A
 					l = l[1:]
 				}
-				w, ok := Layout(l).Width()
+				l = Layout(l).Norm()
+				w, ok := Layout(l).DeclWidth()
 				if !ok || off < 0 {
 					good = false
 					break
@@ -340,6 +341,11 @@ func (e *Eval) evalLoop(fr *frame, h *ssa.BasicBlock, body map[*ssa.BasicBlock]b
 				ps = append(ps, piece{off, l, w})
 			case "R3":
 				// X_T = s_{T-1} | s_{T-2} << c | ... : term of iteration t sits at offset c·(T-1-t)
+				l = Layout(l).Norm()
+				if dw, ok := Layout(l).DeclWidth(); !ok || dw > p.c {
+					good = false
+					break
+				}
 				ps = append(ps, piece{p.c * (T - 1 - t), l, p.c})
 			}
 		}
@@ -359,7 +365,7 @@ func (e *Eval) evalLoop(fr *frame, h *ssa.BasicBlock, body map[*ssa.BasicBlock]b
 				out = append(out, Field{W: K(q.off - pos)})
 			}
 			out = append(out, q.l...)
-			if lw, _ := q.l.Width(); lw < q.w {
+			if lw, _ := q.l.DeclWidth(); lw < q.w {
 				out = append(out, Field{W: K(q.w - lw)})
 			}
 			pos = q.off + q.w
